@@ -6,6 +6,7 @@ CONSTANTS
   Kinds = {"close", "keep", "ws"}
   SigTwice = FALSE
   Dev = {"FlagBeforeRecv"}
+  Faults = {}
 SPECIFICATION Spec
 INVARIANTS Inv_ServingBefore
 CHECK_DEADLOCK FALSE
